@@ -146,3 +146,7 @@ Proof.
 Qed.
 
 End Correct.
+
+Theorem reader_refines_file_top bsz f : 0 < bsz -> forall ops,
+  rd_run bsz f (rd_new bsz f) ops = Some (map (fun '(off, len) => spec_read f off len) ops).
+Proof. intros H ops. apply reader_refines_file_lemma; [exact H|]. unfold rd_new. cbn [rbf]. apply new_inv; exact H. Qed.
